@@ -59,6 +59,7 @@ type c02Run struct {
 	moves   int
 	pairs   int
 	sealed  bool
+	expiry  []*c02ExpiryFault
 }
 
 func (x *c02Run) step(format string, a ...any) {
@@ -1400,6 +1401,7 @@ func (x *c02Run) mutate() {
 // after unsealing every verdict is as before (nothing cached survives, nothing is lost).
 func (x *c02Run) sealCycle() {
 	v := x.v
+	x.suspendExpiryFaults()
 	if err := TestCoreSeal(v.Core); err != nil {
 		x.r.Inconc("%s: seal failed: %v", x.caseID, err)
 		x.aborted = true
@@ -1425,6 +1427,7 @@ func (x *c02Run) sealCycle() {
 		return
 	}
 	x.step("UNSEALED")
+	x.resumeExpiryFaults()
 	x.r.Count("seal_cycles", 1)
 	x.digest = x.storageDigest()
 }
